@@ -136,10 +136,14 @@ class ScriptedSource(ScheduleSource):
             if created.schedule_id != want.schedule_id or s["sid"] not in self.items:
                 self.env.rec("loop_raised", s="schedule_not_created")
             return
-        self.items[s["sid"]] = mk_task(s)
+        t = mk_task(s)
+        if s.get("noid"):
+            # created without an explicit schedule_id: the model's default factory gives every schedule its own id
+            t = ScheduledTask(task_name=t.task_name, labels=t.labels, args=t.args, kwargs=t.kwargs, cron=t.cron, time=t.time)
+        self.items[s["sid"]] = t
 
     async def add_schedule(self, schedule: ScheduledTask) -> None:
-        self.items[int(schedule.schedule_id[1:])] = schedule
+        self.items[int(schedule.kwargs["sid"])] = schedule
 
     async def get_schedules(self) -> List[ScheduledTask]:
         self.npolls += 1
@@ -154,7 +158,7 @@ class ScriptedSource(ScheduleSource):
         return [self.items[k] for k in sorted(self.items)]
 
     def _sid(self, task: ScheduledTask) -> int:
-        return int(task.schedule_id[1:])
+        return int(task.kwargs["sid"])          # every schedule carries its number in its payload (ids may be generated)
 
     def _pre(self, task: ScheduledTask) -> None:
         sid = self._sid(task)
@@ -250,12 +254,18 @@ class RecBroker(AsyncBroker):
         sid_l = str(tm.labels.get("schedule_id", ""))
         sid = int(sid_l[1:]) if sid_l.startswith("s") and sid_l[1:].isdigit() else 0
         from_label_source = False
+        noid = False
+        if sid == 0 and isinstance(tm.kwargs.get("sid"), int) and self.cfg.get("_noid", {}).get(tm.kwargs["sid"]):
+            sid = tm.kwargs["sid"]               # a schedule created without an explicit id: the id on the wire is a generated one
+            noid = True
         if sid == 0 and tm.task_name.startswith("task") and tm.task_name[4:].isdigit() and sid_l:
             sid = int(tm.task_name[4:])          # label-based source: generated schedule ids, one entry per task
             from_label_source = True
         self.nk[sid] = self.nk.get(sid, 0) + 1
         fail = [sid, self.nk[sid]] in self.cfg.get("kickfail", [])
         exp_labels = {"lbl": f"L{sid}", "n": sid, "schedule_id": f"s{sid}"}
+        if noid:
+            exp_labels["schedule_id"] = tm.labels.get("schedule_id") if len(sid_l) >= 8 else "missing"
         if self.cfg.get("_edit", {}).get(sid):
             exp_labels["stamp"] = f"S{sid}"
         if self.cfg.get("_viak", {}).get(sid) and tm.labels.get("n") == str(sid):
@@ -294,6 +304,7 @@ def normalize(cfg: Dict[str, Any]) -> Dict[str, Any]:
     c["_tn"] = {x["sid"]: (x["tn"] or x["sid"]) for s_ in srcs for x in s_["sched"]}
     c["_viak"] = {x["sid"]: x["viak"] for s_ in srcs for x in s_["sched"]}
     c["_edit"] = {x["sid"]: s_["edit"] for s_ in srcs for x in s_["sched"]}
+    c["_noid"] = {x["sid"]: x["noid"] for s_ in srcs for x in s_["sched"]}
     c["_srcedit"] = [s_["edit"] for s_ in srcs]
     c["minute"] = 60000
     c["second"] = 1000
@@ -303,7 +314,7 @@ def normalize(cfg: Dict[str, Any]) -> Dict[str, Any]:
 def norm_sched(x: Dict[str, Any]) -> Dict[str, Any]:
     return {"sid": x["sid"], "kind": x["kind"], "mins": list(x.get("mins", [])), "T": x.get("T", 0), "cancel": bool(x.get("cancel", False)),
             "naive": bool(x.get("naive", False)), "tn": x.get("tn", 0), "lblsid": bool(x.get("lblsid", False)),
-            "viak": bool(x.get("viak", False)), "tzh": int(x.get("tzh", 0))}
+            "viak": bool(x.get("viak", False)), "tzh": int(x.get("tzh", 0)), "noid": bool(x.get("noid", False))}
 
 
 def run(scn: Dict[str, Any]) -> List[Dict[str, Any]]:
@@ -345,6 +356,7 @@ def run(scn: Dict[str, Any]) -> List[Dict[str, Any]]:
                 cfg["_tn"][spec["sid"]] = spec["tn"] or spec["sid"]
                 cfg["_viak"][spec["sid"]] = spec["viak"]
                 cfg["_edit"][spec["sid"]] = cfg["_srcedit"][src - 1]
+                cfg["_noid"][spec["sid"]] = spec["noid"]
                 env.rec("add", src=src, sid=spec["sid"], s=spec["kind"], n=spec["T"], ok=not spec["cancel"], ids=spec["mins"])
                 sources[src - 1].add(spec)
             elif op == "remove":
